@@ -527,8 +527,8 @@ static void run_hist(char *p)
         else lg_add("rok:%d:%zu:unreadable ", id_of(c_buf), c_size);
       } else {
         const char *e = tj3GetErrorStr(tj);
-        if (strstr(e, "Buffer passed to JPEG library is too small")) lg_add("rbufsize:%d:%zu:0 ", id_of(c_buf), c_size);
-        else lg_add("rerr[%s]:%d:%zu:0 ", e, id_of(c_buf), c_size);
+        if (strstr(e, "Buffer passed to JPEG library is too small")) lg_add("rbufsize:%d:-:0 ", id_of(c_buf));   /* *jpegSize after a failure is unspecified */
+        else lg_add("rerr[%s]:%d:-:0 ", e, id_of(c_buf));
       }
     }
   }
